@@ -222,7 +222,7 @@ func runC10(c *Ctx) {
 			if HasFact(fs, FTrue(MCall("RolloutStrategy.IsBlueGreenRelease"))) {
 				bg++
 				t := TermOf(ret.Results[0])
-				ok := t.Any(MCall("errors.NewBadRequestError"))
+				ok := ValueIs(ret.Results[0], MCall("errors.NewBadRequestError"))
 				c.Ob("R10.3", "handleContinuousRelease#blue-green-return", ret.Pos(), ok, "blue-green supersession returns a BadRequest error", ifs(!ok, "returns "+t.String()))
 			}
 		}
